@@ -21,6 +21,7 @@ import (
 	"time"
 
 	"github.com/prometheus/client_golang/prometheus"
+	"github.com/prometheus/prometheus/model/labels"
 
 	"github.com/cloudflare/pint/internal/promapi"
 	"github.com/cloudflare/pint/verifharness/promfake"
@@ -297,7 +298,7 @@ func c13Run(id int, c *c13Case, name string, tenant *promfake.Tenant, fg *promap
 		for _, x := range c.Pres[f] {
 			cells[x] = true
 		}
-		series[f] = promfake.PSeries{Labels: map[string]string{"__name__": "m", "s": fmt.Sprintf("s%d", f+1)}, Cells: cells}
+		series[f] = promfake.PSeries{Labels: c13Labels(f + 1), Cells: cells}
 	}
 	pm := promfake.NewPresence(base*1000, c.Unit*1000, series, true)
 	tenant.Set(pm)
@@ -314,6 +315,28 @@ func c13Run(id int, c *c13Case, name string, tenant *promfake.Tenant, fg *promap
 type c13Res struct {
 	r   *promapi.RangeQueryResult
 	err error
+}
+
+// c13Labels: the label set of series f (1-based). The series do NOT share their label names: series 2 carries one more
+// label ("a") than the others, and it is the one Prometheus puts first in a response (labels.Compare: "a" < "s"), while
+// pint's own order (fewer labels first) keeps the series in id order. A client that lets label names leak from one series
+// of a response to the next gives a series different identities in different slices.
+func c13Labels(f int) map[string]string {
+	m := map[string]string{"__name__": "m", "s": fmt.Sprintf("s%d", f)}
+	if f == 2 {
+		m["a"] = "1"
+	}
+	return m
+}
+
+// c13SeriesOf maps a returned label set back to the series of the case whose FULL label set it equals (0 = none).
+func c13SeriesOf(ls labels.Labels, n int) int {
+	for f := 1; f <= n; f++ {
+		if labels.Equal(ls, labels.FromMap(c13Labels(f))) {
+			return f
+		}
+	}
+	return 0
 }
 
 // model slice (1-based) that starts at startMs; 0 = none
@@ -371,10 +394,7 @@ func c13Query1(id, qn int, c *c13Case, q *c13Query, base int64, expr, name strin
 		errs = rr.err.Error()
 	} else {
 		for _, r := range rr.r.Series.Ranges {
-			fp := 0
-			if v := r.Labels.Get("s"); len(v) > 1 {
-				fp, _ = strconv.Atoi(v[1:])
-			}
+			fp := c13SeriesOf(r.Labels, len(c.Pres)) // 0 = a label set no series of the case has
 			ranges = append(ranges, c13Range{Fp: fp, S: r.Start.Unix() - base, E: r.End.Unix() - base})
 		}
 	}
